@@ -16,5 +16,7 @@ CONSTANTS
   AllowReuse = TRUE
   AllowLin3 = FALSE
   AllowDrop = FALSE
+  AllowBnShare = FALSE
+  PlainOps = {"relu", "pool", "flat", "add"}
   AllowFindings = TRUE
   MaxHist = 0
